@@ -49,7 +49,7 @@ def m_opaque_next(engine, st, fr, callee, args, ops):
 
 def m_as_ref_slice(engine, st, fr, callee, args, ops):
     cell = ("h", engine.fresh_name("slice"))
-    st.mem[cell] = sym.Arr([z3.BitVec(engine.fresh_name("w"), 32)], "arr")
+    st.mem[cell] = sym.Arr([z3.BitVec(engine.fresh_name("w"), 32), z3.BitVec(engine.fresh_name("w"), 32)], "arr")     # two words: duplicates are possible
     return sym.Ref(cell, ())
 
 
